@@ -216,7 +216,8 @@ def mkField (j : Json) : FieldDecl DV :=
     onError := optPolicy (fld j "on_error")
     required := bool! (fld j "required")
     default := match fld j "default" with | .null => none | d => some (DV.ofJson d)
-    disc := bool! (fld j "disc") }
+    disc := bool! (fld j "disc")
+    posOnly := bool! (fld j "po") }
 
 def mkParser (j : Json) : ParserDecl DV :=
   { fields := (arr! (fld j "fields")).map mkField
@@ -259,7 +260,8 @@ def handle (j : Json) : Json :=
         excludeIndexes := (arr! (fld j "exclude_indexes")).map nat!
         posVarIndex := optNat (fld j "pos_var_index")
         posType := optNat (fld j "pos_t")
-        posOnly := (arr! (fld j "pos_only")).map mkField
+        posOnly := (arr! (fld j "pos_only")).map fun p => match arr! p with
+          | [i, f] => (nat! i, mkField f) | _ => (0, mkField Json.null)
         returnType := optNat (fld j "return_t") }
     let body : List DV → List (Nat × DV) → M DV := fun _ _ => runAct (.tok 0) (S.find 7 3 0)
     outJson DV.toJson (syncCall D L o F body ((arr! (fld j "args")).map DV.ofJson) (kwOf (fld j "kwargs")) {})
